@@ -464,6 +464,28 @@ def fmt_vals(rng, s, n, f, count):
     lo, hi = rng_range(s, n)
     E = edges(s, n, f)
     vals = set(E[:: max(1, len(E) // 40)]) | {0, 1, hi, lo, 1 << f if (1 << f) <= hi else 0}
+    if n == 128 and f > 64:
+        # limb-carry directed (two-limb `mul10` of the 128-bit decimal formatter): fraction words W = hi * 2^64 + lo with hi * 10 = d * 2^64 - t (t = 6 d mod 10),
+        # so that the low limb's spill lo * 10 >> 64 >= t wraps the high limb in this step (a 2^-62 event per digit for random values), moved k digits to the right
+        M = 1 << 128
+        for _ in range(max(4, count // 6)):
+            d = rng.choice([1, 2, 3, 4, 6, 7, 8, 9]); t = (6 * d) % 10
+            hi_ = (d * (1 << 64) - t) // 10
+            lo_ = rng.randrange((t << 64) // 10 + 1, 1 << 64) if rng.random() < 0.7 else rng.choice([(t << 64) // 10, (t << 64) // 10 + 1, (1 << 64) - 1])
+            W = ((hi_ << 64) | lo_) >> (128 - f) << (128 - f)          # only the top f bits are fraction
+            for _k in range(rng.choice([0, 0, 1, 2, 5, 17])):
+                W &= ~1 if (128 - f) == 0 else ~0
+                j = next((j for j in range(10) if (W + j * M) % 10 == 0), None)
+                if j is None:
+                    break
+                W = (W + j * M) // 10
+                W = W >> (128 - f) << (128 - f)
+            frac = W >> (128 - f)
+            ip = rng.randrange(0, 1 << min(n - f - (1 if s else 0), 30)) if n - f - (1 if s else 0) > 0 else 0
+            v = (ip << f) | frac
+            if s and rng.random() < 0.4:
+                v = -v
+            vals.add(clip(s, n, v))
     for _ in range(count):
         r = rng.random()
         if r < 0.3:
